@@ -112,6 +112,7 @@ def main():
             finally:
                 for file, src in saved.items():
                     open(file, 'w').write(src)
+        ctx.cleanup()
         subprocess.run([os.path.join(V, 'check'), prop, '--tier', 'quick'], cwd=V, stdout=subprocess.DEVNULL, stderr=subprocess.DEVNULL)
     print('guard-test: %d runs, %d failures' % (total, fails))
     subprocess.run(['git', '-C', REPO, 'status', '--short', '--untracked-files=no'])
